@@ -765,7 +765,11 @@ func (f *FnEnc) resolveLocal(name string, ctx *SpecCtx) (Val, types.Type, bool) 
 			}
 		}
 	}
-	for d := b.Idom(); d != nil; d = d.Idom() {
+	start := b.Idom()
+	if ctx.atReturn {
+		start = b // the whole block precedes its return
+	}
+	for d := start; d != nil; d = d.Idom() {
 		for i := len(d.Instrs) - 1; i >= 0; i-- {
 			switch v := d.Instrs[i].(type) {
 			case *ssa.DebugRef:
@@ -803,4 +807,26 @@ func (f *FnEnc) resolveLocal(name string, ctx *SpecCtx) (Val, types.Type, bool) 
 		}
 	}
 	return nil, nil, false
+}
+
+// localType returns the type of source variable name if the function has one.
+func (f *FnEnc) localType(name string) types.Type {
+	for _, b := range f.fn.Blocks {
+		for _, ins := range b.Instrs {
+			switch v := ins.(type) {
+			case *ssa.DebugRef:
+				if debugRefName(v) == name {
+					if v.IsAddr {
+						return derefType(v.X.Type())
+					}
+					return v.X.Type()
+				}
+			case *ssa.Phi:
+				if v.Comment == name {
+					return v.Type()
+				}
+			}
+		}
+	}
+	return nil
 }
